@@ -26,11 +26,10 @@ def main():
     if own_only:
         sys.argv.remove("--own")
     ids = sys.argv[1:] or sorted(d for d in os.listdir(os.path.join(VERIF, "seeded")) if os.path.isdir(os.path.join(VERIF, "seeded", d)))
-    wt = "/tmp/mx-wt" + ("-own" if own_only else "")
+    wt = "/tmp/mx-wt" + ("-own" if own_only else "") + "-%d" % os.getpid()     # one scratch worktree per run: runs may overlap
     sh(f"git -C /repo worktree remove --force {wt}")
     sh(f"git -C /repo worktree add --detach {wt} HEAD")
     out_path = os.path.join(VERIF, "seeded", "MATRIX-own.json" if own_only else "MATRIX.json")
-    matrix = json.load(open(out_path)) if os.path.exists(out_path) else {}
     head = sh("git -C /repo rev-parse --short HEAD").stdout.strip()
     try:
         for sid in ids:
@@ -41,8 +40,7 @@ def main():
             row = {"property": prop, "repo_head": head, "applies": r.returncode == 0, "caught_by": [], "silent": [], "errors": []}
             if r.returncode != 0:
                 row["apply_error"] = r.stderr[-200:]
-                matrix[sid] = row
-                print(sid, "DOES NOT APPLY", flush=True)
+                print(sid, "DOES NOT APPLY", row["apply_error"], flush=True)
                 continue
             checks = [prop] + ([] if own_only else [c for c in GROUPS[GROUP_OF[prop]] if c != prop])
             for c in checks:
@@ -55,8 +53,10 @@ def main():
                     row["silent"].append(c)
                 else:
                     row["errors"].append({"check": c, "exit": p.returncode, "tail": (p.stdout + p.stderr)[-300:]})
-            matrix[sid] = row
             print(sid, "caught by", [x["check"] for x in row["caught_by"]], "errors", [e["check"] for e in row["errors"]], flush=True)
+            # re-read before writing: another run may have added rows meanwhile
+            matrix = json.load(open(out_path)) if os.path.exists(out_path) else {}
+            matrix[sid] = row
             json.dump(matrix, open(out_path, "w"), indent=1, sort_keys=True)
     finally:
         sh(f"git -C /repo worktree remove --force {wt}")
